@@ -118,6 +118,48 @@ static int c01_tj_run(const unsigned char *b, size_t n, int api, unsigned long l
   return ret;
 }
 
+/* overwrite the dead stack frames left by earlier calls */
+static __attribute__((noinline)) int c01_clobber(int depth, unsigned char v)
+{
+  volatile unsigned char junk[1024]; int i, s = 0;
+  for (i = 0; i < 1024; i++) junk[i] = v;
+  for (i = 0; i < 1024; i += 97) s += junk[i];
+  return depth > 0 ? s + c01_clobber(depth - 1, v) : s;
+}
+
+/* transform on a handle that has already been used for a decompression with a scan limit, after the limit was switched off:
+   must behave like a transform on a fresh handle */
+static int c01_reuse_run(const unsigned char *b, size_t n, unsigned long long rs, int fresh, unsigned char **out, size_t *outsz, char *desc, size_t dsz)
+{
+  tjhandle hd = tj3Init(TJINIT_TRANSFORM); tjtransform xf; unsigned char *dst = NULL; size_t dn = 0; int rc, op = C01_RND(8);
+  *out = NULL; *outsz = 0;
+  tj3Set(hd, TJPARAM_MAXPIXELS, 1 << 20);
+  /* both handles read the header (which, as documented, sets the parameters that describe the source); only the reused
+     one also decompresses under a scan limit and then switches the limit off */
+  {
+    int w, h, hdr = tj3DecompressHeader(hd, b, n); unsigned char *tmp;
+    if (!fresh) {
+      tj3Set(hd, TJPARAM_SCANLIMIT, 64);
+      if (hdr == 0) {
+        w = tj3Get(hd, TJPARAM_JPEGWIDTH); h = tj3Get(hd, TJPARAM_JPEGHEIGHT);
+        if (w > 0 && h > 0 && (long long)w * h <= (1 << 20) && tj3Get(hd, TJPARAM_PRECISION) == 8) {
+          tmp = (unsigned char *)malloc((size_t)w * h * 4 + 16);
+          (void)tj3Decompress8(hd, b, n, tmp, 0, TJPF_RGBX);
+          free(tmp);
+        }
+      }
+      tj3Set(hd, TJPARAM_SCANLIMIT, 0);
+      (void)c01_clobber(24, (unsigned char)(0x11 + (rs & 0x7F)));
+    }
+  }
+  memset(&xf, 0, sizeof(xf)); xf.op = op; xf.options = TJXOPT_TRIM;
+  rc = tj3Transform(hd, b, n, 1, &dst, &dn, &xf);
+  snprintf(desc, dsz, "reuse op%d rc%d %s", op, rc, rc < 0 ? tj3GetErrorStr(hd) : "");
+  if (rc == 0 && dst) { *out = (unsigned char *)malloc(dn + 1); memcpy(*out, dst, dn); *outsz = dn; }
+  tj3Free(dst); tj3Destroy(hd);
+  return rc < 0 ? -1 : 0;
+}
+
 typedef struct { struct jpeg_progress_mgr pub; int maxscans; } c01_prog;
 static void c01_progress(j_common_ptr c)
 {
@@ -195,7 +237,8 @@ static int c01_dfz(toks_t *t)
 {
   int api = (int)tl(t, 1); unsigned long long os = (unsigned long long)tll(t, 2); size_t n; unsigned char *b = hex2bytes(t->tok[3], &n);
   unsigned char *o1 = NULL, *o2 = NULL; size_t s1 = 0, s2 = 0; char d1[200] = "", d2[200] = ""; int r1, r2;
-  if (api <= 2) { r1 = c01_tj_run(b, n, api, os, 0x5A, &o1, &s1, d1, sizeof(d1)); r2 = c01_tj_run(b, n, api, os, 0xC3, &o2, &s2, d2, sizeof(d2)); }
+  if (api == 4) { r1 = c01_reuse_run(b, n, os, 1, &o1, &s1, d1, sizeof(d1)); r2 = c01_reuse_run(b, n, os, 0, &o2, &s2, d2, sizeof(d2)); }
+  else if (api <= 2) { r1 = c01_tj_run(b, n, api, os, 0x5A, &o1, &s1, d1, sizeof(d1)); r2 = c01_tj_run(b, n, api, os, 0xC3, &o2, &s2, d2, sizeof(d2)); }
   else { r1 = c01_lj_run(b, n, os, 0x5A, &o1, &s1, d1, sizeof(d1)); r2 = c01_lj_run(b, n, os, 0xC3, &o2, &s2, d2, sizeof(d2)); }
   printf("R skip %d %s\n", r1, d1);
   if (r1 != r2) printf("O fail dfz: two identical calls ended differently (%d / %d): %s | %s\n", r1, r2, d1, d2);
